@@ -323,6 +323,9 @@ def run(chk, repo):
     from rules.shared import optname
     chk.clauses.append('C12.e (shared R-THREAD) an option value bound to a name that is itself a CLI option carries that very option')
     optname(chk, repo, 'C12.e', ['cli.generate_index', 'cli.update_index'], floor=0)
+    from rules.shared import kwname
+    chk.clauses.append('C12.kw (shared R-THREAD) parameters handed on as keyword arguments keep their name: no `a=b` between two parameters of one function')
+    kwname(chk, repo, 'C12.kw', ['index', 'params'], floor=0)
 
 def fstr(node):
     if node is None:
